@@ -167,7 +167,10 @@ def t3(rep, tier, budget=1):
         try:
             cache = os.path.join(root, "cache")
             for s1, s2 in [("a", "./a"), ("a", "x/../a"), ("d/b", "d//b"), ("d/b", "d/./b"), ("d/b", b"d/b"),
-                           ("a", __import__("pathlib").Path("a")), ("a", os.path.join(root, "a")), ("d/b", "d/c/../b")]:
+                           ("a", __import__("pathlib").Path("a")), ("a", os.path.join(root, "a")), ("d/b", "d/c/../b"),
+                           # absolute spellings that are not normalised
+                           ("a", root + "//a"), ("d/b", root + "/d/./b"), ("d/b", root + "/d/../d/b"), ("a", root + "/./a"),
+                           ("d/b", (root + "/d//b").encode()), ("a", __import__("pathlib").PurePosixPath(root + "/x/../a"))]:
                 got = []
 
                 def wr(b, p):
